@@ -86,7 +86,10 @@ def _lhs_vars(lhs: ast.expr) -> Set[str]:
         return {get_id(x) for x in lhs.elts}
     return {get_id(lhs)}
 '''],
-    "_compute_constant_if_conditions": '''
+    # second form: the repaired code also excludes the function's parameters (a parameter shadows a module global of
+    # the same name); the harness then removes the parameter names from the globals it hands to the Coq side
+    # (c01_gen.coq_globals, decided by probing the real analyzer: c01_run.constant_if_excludes_parameters)
+    "_compute_constant_if_conditions": ['''
 def _compute_constant_if_conditions(self, fun: ast.FunctionDef, globals: dict[str, Any]) -> None:
     assigned_vars = self.assigned_vars(fun.body)
     for node in ast.walk(fun):
@@ -96,7 +99,17 @@ def _compute_constant_if_conditions(self, fun: ast.FunctionDef, globals: dict[st
                 if python_var not in assigned_vars and python_var in globals:
                     # Condition depends on an outer-scope variable.
                     self._constant_if_condition[node] = bool(globals[python_var])
-''',
+''', '''
+def _compute_constant_if_conditions(self, fun: ast.FunctionDef, globals: dict[str, Any]) -> None:
+    assigned_vars = self.assigned_vars(fun.body)
+    parameters = {arg.arg for arg in fun.args.posonlyargs + fun.args.args + fun.args.kwonlyargs}
+    for node in ast.walk(fun):
+        if isinstance(node, ast.If):
+            if isinstance(node.test, ast.Name):
+                python_var = node.test.id
+                if python_var not in assigned_vars and python_var not in parameters and python_var in globals:
+                    self._constant_if_condition[node] = bool(globals[python_var])
+'''],
     "constant_if_condition": '''
 def constant_if_condition(self, if_stmt: ast.If) -> Optional[bool]:
     return self._constant_if_condition.get(if_stmt, None)
